@@ -355,6 +355,8 @@ def draw_rotate(rng, geo, h_slot, m, inplace, out, kmax=9):
     else:
         ref = None
     o = {"op": "rotate90", "on": h_slot, "ax1": ax1, "ax2": ax2, "k": k, "ref": ref, "inplace": inplace, "out": out}
+    if rng.random() < 0.1:
+        o["knp"] = rng.choice(["int64", "int32"])  # "all integer k": a numpy integer is one
     _own_ref(rng, geo, o, m, lambda r: m.rotate90(ia, ib, k, r))
     return o
 
@@ -394,6 +396,8 @@ def draw_reject(rng, h_slot, kind, reg, methods, inplace, field_unmapped_axes=No
             ("complex element", [[{"complex": [1.0, 1.0]}] + ok_v[1:]], {}),
             ("set", [{"set": [1.0]}], {}),
             ("degenerate by rounding (far translation)", [[1e22 * scale] + [0.0] * (nd - 1)], {}),
+            ("non-finite element", [[{"float": "nan"}] + [0.0] * (nd - 1)], {}),
+            ("non-finite element", [[0.0] * (nd - 1) + [{"float": "inf"}]], {}),
         ]
     elif method == "scale":
         zero_axis = list(ok_v)
@@ -412,6 +416,10 @@ def draw_reject(rng, h_slot, kind, reg, methods, inplace, field_unmapped_axes=No
             ("reference str", [2.0], {"reference_point": "abc"}),
             ("reference dict", [2.0], {"reference_point": {"dict": {"a": 1.0}}}),
             ("degenerate by rounding (far reference)", [2.0], {"reference_point": [1e22 * scale] * nd}),
+            ("non-finite factor", [{"float": "nan"}], {}),
+            ("non-finite factor", [{"float": "inf"}], {}),
+            ("non-finite factor", [[{"float": "nan"}] + ok_v[1:]], {}),
+            ("non-finite reference", [2.0], {"reference_point": [{"float": "nan"}] + [0.0] * (nd - 1)}),
         ]
     elif method == "rotate90":
         if nd < 2:
@@ -427,6 +435,9 @@ def draw_reject(rng, h_slot, kind, reg, methods, inplace, field_unmapped_axes=No
             ("reference str", [a, b], {"reference_point": "abc"}),
             ("reference number", [a, b], {"reference_point": 1.0}),
             ("degenerate by rounding (far reference)", [a, b], {"reference_point": [1e22 * scale] * nd}),
+            ("non-finite reference", [a, b], {"reference_point": [{"float": "nan"}] * nd}),
+            ("complex reference element", [a, b], {"reference_point": [{"complex": [0.0, 1.0]}] * nd}),
+            ("str reference element", [a, b], {"reference_point": ["abc"] * nd}),
         ]
         if field_unmapped_axes:
             a, b = field_unmapped_axes
